@@ -1,0 +1,22 @@
+//! Observation hooks for the external verification harness.
+//!
+//! Compiled only with `--cfg cooklang_verif`; nothing in the crate uses them.
+
+/// The token stream of `input`: kind name, start and end byte offsets.
+pub fn tokens(input: &str) -> Vec<(String, usize, usize)> {
+    crate::parser::token_stream_for_verif(input)
+}
+
+/// Character classes the lexer depends on: (is_alphabetic, is_separator_space,
+/// is_punctuation, is_whitespace, is_alphanumeric, is_numeric).
+pub fn char_class(c: char) -> (bool, bool, bool, bool, bool, bool) {
+    use finl_unicode::categories::CharacterCategories;
+    (
+        c.is_alphabetic(),
+        c.is_separator_space(),
+        c.is_punctuation(),
+        c.is_whitespace(),
+        c.is_alphanumeric(),
+        c.is_numeric(),
+    )
+}
